@@ -56,3 +56,13 @@ add("C09", "exploration", "runtime monitor: (key -> value, weight) model with an
 add("C10", "exploration", "runtime monitor: honest proofs of every block verified against the reference root; structured tampering classes T1-T8 replayed against VerifyBlockProof with a forged-value oracle and a classifier for the known weakness",
     "1 280 (quick) / 48 000 (thorough) tries; honest half checks every block; adversarial half submits about 5 million (quick) tampered proofs (re-weighting, sibling swaps, substitution from other blocks/positions/tries, drop/dup/reorder/truncate, field edits, type confusion, bit flips, splices); a violation is a forged proof that verifies to the trusted root with a wrong value.",
     "Structured tamperings and random edits only, not all byte strings; sum-preserving re-weightings are the known finding reweight-sum-preserving.")
+
+add("C11", "fault_enumeration", "runtime monitor: store snapshot after every physical storage operation (exhaustive crash points per history) + reopen-from-(hash, weight) observational check + canonical-node presence",
+    "64 000 (quick) / 1 600 000 (thorough) histories in four scenario classes (clean-GC, dirty-GC, shared content, Root() reads while dirty); after every storage operation the last durably committed root is reopened on a copy of the store and compared block by block with the model, and every canonical node hash must be present; every 200th class-A history also runs on real pebble.",
+    "Storage model: completed operations durable, batches atomic; shared-content losses are the open known finding gc-shared-content (classifier: all missing hashes were shared at supersession time).")
+add("C12", "exploration", "runtime monitor: mirrored source/partial trie pair compared (root, weight, error outcome) with each other and with the reference hasher after import and after every operation; race build",
+    "19 200 (quick) / 480 000 (thorough) cases enumerating root shape x requested-set size (both sides of the >10 parallel path) x in-memory/collapsed source, followed by 1-10 mirrored updates/deletes of requested keys; run in the -race binary so the parallel marker is watched by the race detector.",
+    "Follow-up operations touch requested keys only; in-memory sources are finalised through Root() first.")
+add("C13", "exploration", "runtime monitor: checkpoint model + storage key-set differences (S0/S1/S2 from the logging adapter) + reopen check around both rollback entry points",
+    "24 000 (quick) / 400 000 (thorough) checkpoint/commit/rollback histories with every change kind (new, changed, unchanged re-write, delete-and-re-add, delete), optional GC passes, both Rollback and RollbackTrie; root, weight, full observational check on the live and a reopened trie, no node created only by the rolled-back commit survives; two GC passes after the rollback in a quarter of the cases.",
+    "At most one GC pass between commit and rollback (property's domain).")
